@@ -10,7 +10,7 @@ def run(ctx):
     queries = [('reach', 26, ['reach:tx1-applied']), ('stuck', d, ['bad:stranded'])]
     # waypoints (deeper histories): from one reachable state of each class of the first two transactions
     # (C committed-not-applied, A applied, F failed) every continuation of 14 steps
-    way2 = lambda a, b: {'pred': 'reach:w-' + a + b, 'depth': 18, 'seed': {'pred': 'reach:w-' + a + '-', 'depth': 20}}
+    way2 = lambda a, b: {'pred': 'reach:w-' + a + b, 'depth': 18, 'seed': {'pred': 'reach:w-' + a + '-', 'depth': 20}, 'variants': 1 if quick else 3}
     queries += [('stuck', 14, ['bad:stranded'], way2(a, b)) for a, b in (('C', 'F'), ('C', 'C'))]
     configs = [('1x2', cfg, queries, ['c09'])]
     # work sets (both sentences of the property with the controllers' queues in the model): a reconcile runs only when its
